@@ -255,7 +255,7 @@ def r4(ctx, prog):
         if not stores:
             ctx.broke("C20.R4: no cursor store found in %s" % fname)
         for a, d in stores:
-            moves = [x for x, rhs, op in f.var_defs(d) if op in ("++", "=", "+=")]
+            moves = [x for x, kind, opnd in f.var_updates(d)]
             def lt_end(e, pol):
                 if not isinstance(e, int):
                     return False
@@ -270,8 +270,8 @@ def r4(ctx, prog):
     cfg = f.cfg
     dest, size = f.param_id(0), f.param_id(2)
     st = [(a, lhs) for a, lhs, rhs, op in f.stores() if f.nodes[f.strip(lhs)]["k"] == "UnaryOperator" and f.nodes[f.strip(lhs)]["op"] == "*" and f.mentions_decl(lhs, dest)]
-    incs = [x for x, rhs, op in f.var_defs(dest) if op == "++"]
-    decs = [x for x, rhs, op in f.var_defs(size) if op == "--"]
+    incs = [x for x, kind, opnd in f.var_updates(dest) if kind == "add" and opnd == 1]
+    decs = [x for x, kind, opnd in f.var_updates(size) if kind == "sub" and opnd == 1]
     ctx.check(R, len(st) == 2 and len(incs) == 1 and len(decs) == 1, f.where(), "_mi_strlcpy: one copying store with dest++, one terminating store, one dest_size--", key="C20.R4:strlcpy:shape")
     def gt1(e, pol):
         if not isinstance(e, int):
@@ -295,8 +295,8 @@ def r4(ctx, prog):
     for c in g.calls("_mi_strlcpy"):
         ok = rl.var_of(g, rl.arg(g, c, 0)) == g.param_id(0) and rl.var_of(g, rl.arg(g, c, 2)) == g.param_id(2)
         ctx.check(R, ok, g.where(c), "_mi_strlcat hands the advanced cursor and the reduced budget to _mi_strlcpy", key="C20.R4:strlcat")
-    incs = [x for x, rhs, op in g.var_defs(g.param_id(0)) if op == "++"]
-    decs = [x for x, rhs, op in g.var_defs(g.param_id(2)) if op == "--"]
+    incs = [x for x, kind, opnd in g.var_updates(g.param_id(0)) if kind == "add" and opnd == 1]
+    decs = [x for x, kind, opnd in g.var_updates(g.param_id(2)) if kind == "sub" and opnd == 1]
     ok = len(incs) == 1 and len(decs) == 1 and g.cfg.must_pass([g.cfg.after(incs[0])], [g.cfg.pt(incs[0])] + g.cfg.exit_points(), lambda e: e in decs) is None
     ctx.check(R, ok, g.where(), "_mi_strlcat: one dest_size-- per dest++", key="C20.R4:strlcat:pair")
     # vsnprintf
